@@ -488,6 +488,9 @@ func (x *Exec) applyAssigns(fc *FuncContract, binders map[string]Val, pre *State
 	}
 	for _, k := range order {
 		g := groups[k]
+		if _, known := e.heapSort[k]; !known {
+			continue // a component nothing has touched yet: its first read is unconstrained anyway
+		}
 		old := e.heapGet(pre, k)
 		if strings.HasPrefix(k, "G:") || strings.HasPrefix(k, "L:") {
 			e.heapHavoc(x.st, k)
